@@ -15,6 +15,7 @@ class Injected(Exception):
 
 class State:
     faults: set = set()  # node ids (tawazi side) that must raise
+    fail_fns: set = set()  # function names that raise on every call, on BOTH sides (reference and tawazi)
     ref_faults: set = set()  # (fn name, k-th call) for the reference side
     counts: Counter = Counter()  # tawazi-side entries per fn name
     ref_counts: Counter = Counter()
@@ -52,7 +53,7 @@ def mkprobe(name, shape=None, setup=False):
             with State.lock:
                 State.ref_counts[name] += 1
                 idx = State.ref_counts[name] - 1
-            if (name, idx) in State.ref_faults:
+            if (name, idx) in State.ref_faults or name in State.fail_fns:
                 raise Injected(name)
             base = Sym(name, a, tuple(sorted(k.items())))
             if setup:
@@ -68,7 +69,7 @@ def mkprobe(name, shape=None, setup=False):
         with State.lock:
             State.counts[name] += 1
         B.park_here()
-        if node is not None and node in State.faults:
+        if (node is not None and node in State.faults) or name in State.fail_fns:
             B.ev("FEXIT", token=tok, node=node, fn=name, ok=False)
             raise Injected(node)
         if setup:
